@@ -163,6 +163,17 @@ func Check(c Case) (v vcase.Verdict) {
 	if n%32 == 0 {
 		v.Label("n%32==0")
 	}
+	if n >= 32 {
+		rejected := 0
+		for _, w := range want {
+			if !w {
+				rejected++
+			}
+		}
+		if rejected == 1 || rejected == n-1 {
+			v.Label("single_bit_mask")
+		}
+	}
 	if st.Nots > 0 && st.UnitLeaves > 0 {
 		v.Label("not_with_mask")
 	}
@@ -301,6 +312,35 @@ func Gen(t *rapid.T) Case {
 	for i := 0; i < n; i++ {
 		c.Units = append(c.Units, rapid.SampledFrom(unitPool).Draw(t, "unit"))
 	}
+	if vcase.OneIn(t, 5, "bitcase") {
+		// single measurements at mask-word boundaries: every unit distinct, the filter
+		// selects (or rejects) one or two positions
+		n = rapid.SampledFrom([]int{32, 33, 63, 64, 65, 96, 100}).Draw(t, "nbit")
+		c.Units = c.Units[:0]
+		for i := 0; i < n; i++ {
+			c.Units = append(c.Units, "u"+strconv.Itoa(i))
+		}
+		pos := func(label string) int {
+			j := rapid.SampledFrom([]int{0, 1, 30, 31, 32, 33, 62, 63, 64, 94, 95, 96, n - 1}).Draw(t, label)
+			if j >= n {
+				j = n - 1
+			}
+			return j
+		}
+		leaf := &refexpr.Node{Op: "match", Key: ".unit", Vals: []refexpr.Term{{Lit: "u" + strconv.Itoa(pos("j1"))}}}
+		switch rapid.IntRange(0, 3).Draw(t, "bitform") {
+		case 0:
+			c.Tree = leaf
+		case 1:
+			c.Tree = &refexpr.Node{Op: "not", Kids: []*refexpr.Node{leaf}}
+		case 2:
+			c.Tree = &refexpr.Node{Op: "not", Kids: []*refexpr.Node{{Op: "list", Key: ".unit", Vals: []refexpr.Term{{Lit: "u" + strconv.Itoa(pos("j2"))}, {Lit: "u" + strconv.Itoa(pos("j3"))}}}}}
+		default:
+			c.Tree = &refexpr.Node{Op: "and", Kids: []*refexpr.Node{{Op: "not", Kids: []*refexpr.Node{leaf}}, {Op: "match", Key: ".name", Vals: []refexpr.Term{{Lit: refexprBase(c.Name)}}}}}
+		}
+		c.Text = refexpr.Print(t, c.Tree)
+		return c
+	}
 	_, ref := build(c)
 	g := &genCtx{ref}
 	c.Tree = genTree(t, g, rapid.IntRange(1, 5).Draw(t, "depth"))
@@ -322,6 +362,10 @@ func Gen(t *rapid.T) Case {
 		c.FixedText = strconv.Quote(c.FixedKey) + "@(" + strings.Join(ws, " ") + ")"
 	}
 	return c
+}
+
+func refexprBase(name string) string {
+	return refexpr.Extract(&refexpr.Result{Name: name}, ".name")
 }
 
 func TestC06Rapid(t *testing.T) { vcase.Run(t, "C06", "rapid", Gen, Check) }
